@@ -480,6 +480,37 @@ fn c10_units(tier: Tier) -> Vec<Unit> {
             }
         },
     ));
+    // ---- no I/O register value changes the masking rule (priority / control registers that are not modelled must stay inert)
+    units.push(Unit::new(
+        "boundary/io-register-values",
+        16,
+        "every I/O register address (H'FEE000-H'FEE0FF, H'FFFF20-H'FFFFE9) x values {01, 80, ff, 55, aa, 0f, f0, 18} written through Bus::write, then every vector 1-63 at a boundary with I set (nothing is accepted, the request stays pending) and with I clear (it is accepted through its own vector); the register gets its old value back afterwards",
+        move |ctx, chunk| {
+            let regs: Vec<u32> = (0xfee000u32..=0xfee0ff).chain(0xffff20..=0xffffe9).collect();
+            for (i, &a) in regs.iter().enumerate() {
+                if i % 16 != chunk as usize {
+                    continue;
+                }
+                for val in [0x01u8, 0x80, 0xff, 0x55, 0xaa, 0x0f, 0xf0, 0x18] {
+                    for v in 1..=63u8 {
+                        for ccr in [0x80u8, 0x00] {
+                            ctx.st.cases += 1;
+                            ctx.st.nontrivial += 1;
+                            if let Some(msg) = io_boundary_case(ctx, a, val, v, ccr) {
+                                ctx.custom_violation("c10", msg, json!({"io_register": format!("{:x}", a), "value": val, "vector": v, "ccr": ccr}), json!(null), json!(null));
+                                if ctx.stop {
+                                    return;
+                                }
+                            }
+                        }
+                    }
+                }
+            }
+            // peripherals back to reset (a timer control write may have started a clock)
+            ctx.m.cpu.vh_module_manager_restore(crate::modules::ModuleManager::new());
+            ctx.m.fill_pristine();
+        },
+    ));
     // ---- queue depth: bursts of N requests raised while I is set, for every N up to 600 and around 2^16
     units.push(Unit::new(
         "boundary/queue-depth",
@@ -501,6 +532,56 @@ fn c10_units(tier: Tier) -> Vec<Unit> {
         },
     ));
     units
+}
+
+/// One case of unit boundary/io-register-values: `val` is written to I/O register `a`, vector `v` is requested
+/// at a boundary with CCR = `ccr`, the register gets its old value back.
+pub fn io_boundary_case(ctx: &mut Ctx, a: u32, val: u8, v: u8, ccr: u8) -> Option<String> {
+    let old = ctx.m.cpu.bus.read(a).unwrap_or(0);
+    let _ = ctx.m.cpu.bus.write(a, val);
+    let sp0 = 0x00ffe700u32;
+    {
+        let cpu = &mut ctx.m.cpu;
+        cpu.er = crate::hv::dom::background_regs();
+        cpu.er[7] = sp0;
+        cpu.vh_set_pc(0x410000);
+        cpu.vh_set_ccr(ccr);
+        cpu.vh_clear_pending_interrupts();
+        cpu.vh_request_interrupt(v);
+    }
+    crate::cpu::verif_hooks::bus_write_log_enable(true);
+    let r = ctx.m.cpu.vh_try_interrupt();
+    let mut wl = Vec::new();
+    crate::cpu::verif_hooks::bus_write_log_take(&mut wl);
+    crate::cpu::verif_hooks::bus_write_log_enable(false);
+    let pend = ctx.m.cpu.vh_pending_interrupts();
+    let (pc_now, sp_now, ccr_now) = (ctx.m.cpu.vh_pc(), ctx.m.cpu.er[7], ctx.m.cpu.vh_ccr());
+    let va = 4 * v as u32;
+    let target = (0..4).fold(0u32, |acc, k| (acc << 8) | ctx.m.peek_shadow(va + k).unwrap_or(0) as u32) & 0x00ff_ffff;
+    for w in wl {
+        if let Some(p) = ctx.m.peek_shadow(w) {
+            if let Some(s) = ctx.m.real_slot(w) {
+                *s = p;
+            }
+        }
+    }
+    ctx.m.cpu.vh_clear_pending_interrupts();
+    let _ = ctx.m.cpu.bus.write(a, old);
+    let bad = if ccr & 0x80 != 0 {
+        r.is_err() || pend != vec![v] || pc_now != 0x410000 || sp_now != sp0 || ccr_now != ccr
+    } else {
+        r.is_err() || !pend.is_empty() || pc_now != target || sp_now != sp0.wrapping_sub(4) || ccr_now & 0x80 == 0
+    };
+    if bad {
+        Some(format!(
+            "with {:02x} written to I/O register {:06x}: vector {} at a boundary with CCR {:02x}: {} (PC {:06x}, SP {:08x}, CCR {:02x}, pending {:?})",
+            val, a, v, ccr,
+            if ccr & 0x80 != 0 { "I is set, nothing may be accepted" } else { "I is clear, the request must be accepted through its vector" },
+            pc_now, sp_now, ccr_now, pend
+        ))
+    } else {
+        None
+    }
 }
 
 /// One burst of `n` requests raised while I is set, then drained (unit boundary/queue-depth).
@@ -635,6 +716,17 @@ pub fn c10(tier: Tier, _seed: u64) -> Prop {
 }
 
 pub fn replay_c10(case: &Value) -> bool {
+    if let Some(a) = case["io_register"].as_str() {
+        let mut ctx = Ctx::new();
+        let g = |k: &str| case[k].as_u64().unwrap_or(0) as u8;
+        return match io_boundary_case(&mut ctx, u32::from_str_radix(a, 16).unwrap_or(0), g("value"), g("vector"), g("ccr")) {
+            Some(m) => {
+                println!("FAILS: {}", m);
+                false
+            }
+            None => true,
+        };
+    }
     if let Some(n) = case["burst"].as_u64() {
         let mut ctx = Ctx::new();
         return match burst_case(&mut ctx, n as u32) {
